@@ -120,6 +120,11 @@ pub fn rebuild_archive<P: AsRef<Path>>(
         metadata.file_count
     );
 
+    // The summary counts are relative to the files that are enumerated for the
+    // rebuild. (`ArchiveInfo::file_count` ignores zero-length files, so using it made
+    // the counts wrong and `source - extracted` underflow.)
+    let source_file_count = source.list()?.len();
+
     // Phase 2: Extract files and metadata
     log::debug!("Phase 2: Extracting files and metadata");
     let extracted_files =
@@ -130,9 +135,9 @@ pub fn rebuild_archive<P: AsRef<Path>>(
 
     if options.list_only {
         return Ok(RebuildSummary {
-            source_files: metadata.file_count,
+            source_files: source_file_count,
             extracted_files: extracted_count,
-            skipped_files: metadata.file_count - extracted_count,
+            skipped_files: source_file_count - extracted_count,
             target_format: determine_target_format(&metadata, &options),
             verified: false,
         });
@@ -161,9 +166,9 @@ pub fn rebuild_archive<P: AsRef<Path>>(
     };
 
     Ok(RebuildSummary {
-        source_files: metadata.file_count,
+        source_files: source_file_count,
         extracted_files: extracted_count,
-        skipped_files: metadata.file_count - extracted_count,
+        skipped_files: source_file_count - extracted_count,
         target_format,
         verified,
     })
